@@ -99,6 +99,25 @@ Theorem C06_refines_spec_step : forall rvalid rfind filter readfile curpath a lo
 Proof. exact simple_refines_pair. Qed.
 Print Assumptions C06_refines_spec_step.
 
+(* AFTER EVERY COMMAND, explicitly: ex_exec_tr / ex_main_tr are ex_exec / ex_main returning the list of states after each
+   command (C06_trace_is_the_run: the last one is ex_exec's result); ref_exec_tr / ref_main_tr do the same for the reference.
+   Whenever the reference runs the line / the script to its end, the abstractions of the model's states after EVERY command
+   are exactly the reference's states after every command. *)
+Theorem C06_refines_spec_after_every_command : forall rvalid rfind filter readfile curpath,
+  (forall fuel ret ln s t, ref_exec_tr rvalid rfind filter readfile curpath fuel ret ln (abs s) = Some t ->
+     map abs (ex_exec_tr rvalid rfind filter readfile curpath fuel ret ln s) = t) /\
+  (forall n fuel s t, ref_main_tr rvalid rfind filter readfile curpath n fuel (abs s) = Some t ->
+     map abs (ex_main_tr rvalid rfind filter readfile curpath n fuel s) = t).
+Proof. exact (fun rvalid rfind filter readfile curpath =>
+  conj (exec_tr_refines rvalid rfind filter readfile curpath) (main_tr_refines rvalid rfind filter readfile curpath)). Qed.
+Print Assumptions C06_refines_spec_after_every_command.
+
+Theorem C06_trace_is_the_run : forall rvalid rfind filter readfile curpath fuel ret ln s,
+  fst (ex_exec rvalid rfind filter readfile curpath fuel ret ln s) =
+  last (ex_exec_tr rvalid rfind filter readfile curpath fuel ret ln s) s.
+Proof. exact exec_tr_last. Qed.
+Print Assumptions C06_trace_is_the_run.
+
 (* the reference resolves an address exactly as the model does, on its own state *)
 Theorem C06_ref_region : forall rvalid rfind loc s bad b e s1,
   ex_region rvalid rfind loc s = (bad, b, e, s1) -> ref_region rvalid rfind loc (abs s) = (bad, b, e, abs s1).
@@ -166,5 +185,7 @@ Example C06_script_nonvacuous :
   exists r', ref_main (fun _ => true) (fun _ _ _ => None) (fun _ _ => None) (fun _ => None) [] 20 20
                (abs (init_st [97; 10; 98; 10; 99; 10]%N sc true)) = Some r' /\
              r_txt r' = [[121]; [120]; [120]; [122]; [97]; [120]]%N /\ r_cur r' = 1 /\
-             r_out r' = [OLine [120%N]; OLine [97%N]; OLine [122%N]; OLine [121%N]; ONum 3] /\ r_quit r' = true.
-Proof. eexists. split; [vm_compute; reflexivity | vm_compute; repeat split]. Qed.
+             r_out r' = [OLine [120%N]; OLine [97%N]; OLine [122%N]; OLine [121%N]; ONum 3] /\ r_quit r' = true /\
+             exists t, ref_main_tr (fun _ => true) (fun _ _ _ => None) (fun _ _ => None) (fun _ => None) [] 20 20
+                         (abs (init_st [97; 10; 98; 10; 99; 10]%N sc true)) = Some t /\ length t = 10%nat.
+Proof. eexists. split; [vm_compute; reflexivity | vm_compute; repeat split]. eexists. split; [reflexivity | reflexivity]. Qed.
